@@ -4,6 +4,7 @@
 use crate::lemmas::*;
 use crate::sinks::*;
 use epserde::traits::*;
+use epserde::prelude::MaxSizeOf as _;
 use epserde::ser::{self, SerializeInner, WriteNoStd, WriteWithNames, WriterWithPos};
 
 /// declared zero-copy (`Copy = Zero`) but not actually zero-copy
@@ -30,6 +31,35 @@ impl SerializeInner for Wrong {
     fn _serialize_inner(&self, backend: &mut impl WriteWithNames) -> ser::Result<()> {
         epserde::ser::helpers::serialize_zero(backend, self)
     }
+}
+
+impl epserde::deser::DeserializeInner for Wrong {
+    type DeserType<'a> = Wrong;
+    fn _deserialize_full_inner(backend: &mut impl epserde::deser::ReadWithPos) -> epserde::deser::Result<Self> {
+        Ok(Wrong(<u32 as epserde::deser::DeserializeInner>::_deserialize_full_inner(backend)?))
+    }
+    fn _deserialize_eps_inner<'a>(backend: &mut epserde::deser::SliceWithPos<'a>) -> epserde::deser::Result<Self> {
+        Ok(Wrong(<u32 as epserde::deser::DeserializeInner>::_deserialize_eps_inner(backend)?))
+    }
+}
+
+/// derived zero-copy types holding a wrongly declared field: the compile-time
+/// bound accepts `Wrong` (it is declared `Zero`), so only the derived
+/// `IS_ZERO_COPY` conjunction stands between it and the stream
+#[derive(epserde::Epserde, Clone, Copy)]
+#[repr(C)]
+#[zero_copy]
+pub enum WrongEnum {
+    Empty,
+    Full(u64, Wrong),
+    Named { w: Wrong },
+}
+#[derive(epserde::Epserde, Clone, Copy)]
+#[repr(C)]
+#[zero_copy]
+pub struct WrongStruct {
+    pub id: u64,
+    pub w: Wrong,
 }
 
 /// a sink on which any write is an error of the property
@@ -68,6 +98,13 @@ must_panic!(zero_check_vec, { let n: usize = kani::any(); kani::assume(n <= 2); 
 must_panic!(zero_check_array, [Wrong(kani::any()), Wrong(kani::any())]);
 // @h zero_check_iter props=C17 tier=quick kind=complete vars="v:SerIter over [Wrong;2]" allow="Cannot serialize type" fns="impls/iter.rs:SerializeHelper<Zero>"
 must_panic!(zero_check_iter, { static W: [Wrong; 2] = [Wrong(1), Wrong(2)]; epserde::impls::iter::SerIter::from(W.iter()) });
+
+// @h zero_check_derived_enum_tuple props=C17,C05 tier=quick kind=complete vars="v:WrongEnum::Full(u64, Wrong) (derived zero-copy enum, tuple variant)" allow="Cannot serialize type" fns="derive:IS_ZERO_COPY (enum, tuple variant),ser/helpers.rs:serialize_zero"
+must_panic!(zero_check_derived_enum_tuple, WrongEnum::Full(kani::any(), Wrong(kani::any())));
+// @h zero_check_derived_enum_named props=C17,C05 tier=quick kind=complete vars="v:WrongEnum::Named{w} (derived zero-copy enum, struct variant)" allow="Cannot serialize type" fns="derive:IS_ZERO_COPY (enum, struct variant)"
+must_panic!(zero_check_derived_enum_named, WrongEnum::Named { w: Wrong(kani::any()) });
+// @h zero_check_derived_struct props=C17,C05 tier=quick kind=complete vars="v:WrongStruct{id,w} (derived zero-copy struct)" allow="Cannot serialize type" fns="derive:IS_ZERO_COPY (struct)"
+must_panic!(zero_check_derived_struct, WrongStruct { id: kani::any(), w: Wrong(kani::any()) });
 
 /// vacuity guard: a correctly declared type does reach the end
 // @h zero_check_canary props=C17 tier=quick kind=complete expect=fail vars="v:[u32;2] (correct): the must-not-return assertion must fail" fns="ser/helpers.rs:check_zero_copy"
